@@ -63,7 +63,11 @@ class Evaluator:
             pred = s.predicate
             if self.info['classical'] and pred.is_system:
                 if pred.name == 'Identity':
-                    return 'T' if elems[0] == elems[1] else 'F'
+                    # a per-world relation given by the interpretation
+                    # (equivalence + congruence are checked by `frame_ok`)
+                    if elems[0] == elems[1]:
+                        return 'T'
+                    return I.get('P', {}).get((tuple(pred.spec), tuple(elems), w), 'F')
                 return 'T'
             return I.get('P', {}).get((tuple(pred.spec), tuple(elems), w), self.un)
         if tn == 'Operated':
@@ -104,7 +108,37 @@ class Evaluator:
         return des if (d is None or d is True) else not des
 
     def frame_ok(self):
-        return T.frame_ok(self.info['frame'], self.worlds, self.R)
+        if not T.frame_ok(self.info['frame'], self.worlds, self.R):
+            return False
+        if self.info['classical']:
+            return self.identity_ok()
+        return True
+
+    def identity_ok(self):
+        'identity entries of the interpretation: equivalence, and extensions respect it'
+        P = self.I.get('P', {})
+        ident = (-1, 0, 2)
+
+        def Id(a, b, w):
+            return a == b or P.get((ident, (a, b), w), 'F') == 'T'
+        for w in self.worlds:
+            for a in range(self.K):
+                for b in range(self.K):
+                    if Id(a, b, w) != Id(b, a, w):
+                        return False
+                    for c in range(self.K):
+                        if Id(a, b, w) and Id(b, c, w) and not Id(a, c, w):
+                            return False
+            for (pspec, tup, w2), v in P.items():
+                if w2 != w or tuple(pspec) == ident or tuple(pspec)[0] < 0:
+                    continue
+                for pos in range(len(tup)):
+                    for b in range(self.K):
+                        if b != tup[pos] and Id(tup[pos], b, w):
+                            other = tup[:pos] + (b,) + tup[pos + 1:]
+                            if P.get((tuple(pspec), other, w), self.un) != v:
+                                return False
+        return True
 
 
 def interp_from_z3(I, model):
